@@ -173,9 +173,9 @@ func (f *family) get() base.LogChunkMaker {
 		if err := cfg.VerifyConfig(base.MustNewLogSchema([]string{"host", "log"})); err != nil {
 			panic(fmt.Sprintf("harness bug: configuration rejected: %v", err))
 		}
-		ps, pr := fluentdforward.VerifSetChunkLimits(f.maxSize, f.maxRecords)
+		pr, ps := fluentdforward.VerifSetChunkLimits(f.maxRecords, f.maxSize) // accessor order: (records, bytes)
 		f.maker = cfg.NewChunkMaker(logger.Root(), f.tag)
-		fluentdforward.VerifSetChunkLimits(ps, pr)
+		fluentdforward.VerifSetChunkLimits(pr, ps)
 		f.match = cfg.MatchChunkID
 	case "dd":
 		cfg := &datadog.Config{Upstream: datadog.UpstreamConfig{Address: "https://localhost/api/v2/logs", HTTPTimeout: time.Second}}
@@ -672,8 +672,8 @@ func enumerate(ctx *seq.Ctx) {
 	}
 
 	// ---- Forward modes with the production limits (read back through the accessor; documented: 7 MiB, no record limit)
-	prodSize, prodRecords := fluentdforward.VerifSetChunkLimits(1, 1)
-	fluentdforward.VerifSetChunkLimits(prodSize, prodRecords)
+	prodRecords, prodSize := fluentdforward.VerifSetChunkLimits(1, 1)
+	fluentdforward.VerifSetChunkLimits(prodRecords, prodSize)
 	ctx.Note("fluentdforward production limits", fmt.Sprintf("chunkMaxSizeBytes=%d chunkMaxRecords=%d", prodSize, prodRecords))
 	if prodSize > 1<<20 && prodSize < 1<<28 {
 		ctx.Group("forward/production-limits")
